@@ -228,7 +228,7 @@ func recvComponent(r *hx.Run) {
 	var jobs []job
 	maxLen := 3
 	if r.Tier == "thorough" {
-		maxLen = 4
+		maxLen = 5
 	}
 	// exhaustive short sequences (one representative per class keeps the space honest but small)
 	reps := "FPatxewnf"
@@ -251,7 +251,7 @@ func recvComponent(r *hx.Run) {
 	// cancellation at every position of random sequences
 	nCancel, nLong := 60, 40
 	if r.Tier == "thorough" {
-		nCancel, nLong = 400, 300
+		nCancel, nLong = 1500, 1500
 	}
 	for i := 0; i < nCancel; i++ {
 		n := 1 + r.Rng.Intn(7)
